@@ -24,9 +24,14 @@
 (*                                                                         *)
 (* Name selectors: exact | prefix.* | .*suffix | * | one regular-expression *)
 (* operator alone (alternation, ? + * [..] . \. ^$ {n}), full match.        *)
+(* Meter identity: name, version and schema url range over {empty, a, b}   *)
+(* on the meter side and on the selector side; an empty SELECTOR field     *)
+(* does not constrain, a given one selects exactly the meters with that    *)
+(* value (an unnamed meter is not selected by a selector naming a meter).  *)
 (* Left open (not generated / not compared): a meter WITHOUT version or    *)
-(* schema against a selector WITH one (Open); monotonicity, temporality,   *)
-(* values; regex metacharacters inside "exact" names.                      *)
+(* schema against a selector WITH one, where the verdict depends on it     *)
+(* (Open); monotonicity, temporality, values; regex metacharacters inside  *)
+(* "exact" names.                                                          *)
 (*                                                                         *)
 (* Named deviations (what the unchanged code does):                        *)
 (*  multi-view-last-wins                     of several matching views     *)
@@ -131,18 +136,38 @@ NameMatch(p, n) == CASE p.k = "all"    -> TRUE
 AllUnits   == {"", "ms", "By"}                        \* selector "" = any unit
 UnitMatch(sel, u) == sel = "" \/ sel = u
 
-M(id, n, v, s) == [id |-> id, name |-> n, version |-> v, schema |-> s]
-MeterA == M("A", "m1", "1.0", "s1")
-MeterB == M("B", "m1", "2.0", "s1")
-MeterC == M("C", "m2", "1.0", "")
-AllMeters == {MeterA, MeterB, MeterC}
+\* Meter identities: name, version and schema url are each EMPTY (not given: GetMeter("") is accepted by
+\* the SDK, which only logs a warning; version and schema default to "") or one of two values, on the
+\* meter side and on the selector side alike.  id = "name|version|schema" (abstract tokens).
+MNames    == {"", "m1", "m2"}
+MVersions == {"", "1.0", "2.0"}
+MSchemas  == {"", "s1", "s2"}
+M(n, v, s) == [id |-> n \o "|" \o v \o "|" \o s, name |-> n, version |-> v, schema |-> s]
+MeterA == M("m1", "1.0", "s1")
+MeterB == M("m1", "2.0", "s1")
+MeterC == M("m2", "1.0", "")
+MeterU == M("", "1.0", "s1")      \* the unnamed meter of a versioned library
+MeterN == M("", "", "")           \* GetMeter("")
+MeterV == M("m1", "", "")         \* GetMeter("m1")
+AllMeters == {M(n, v, s) : n \in MNames, v \in MVersions, s \in MSchemas}
 MS(n, v, s) == [name |-> n, version |-> v, schema |-> s]
-AllMSels == {MS(n, v, s) : n \in {"", "m1", "m2"}, v \in {"", "1.0", "2.0"}, s \in {"", "s1", "s2"}}
-MeterMatch(ms, m) == /\ ms.name = "" \/ ms.name = m.name
-                     /\ ms.version = "" \/ ms.version = m.version
-                     /\ ms.schema = "" \/ ms.schema = m.schema
-\* the statement does not say whether a meter without version/schema "matches" a selector with one
-Open(ms, m) == (m.version = "" /\ ms.version # "") \/ (m.schema = "" /\ ms.schema # "")
+AllMSels == {MS(n, v, s) : n \in MNames, v \in MVersions, s \in MSchemas}
+\* A selector field that is empty does not constrain the meter (MeterSelector("", "", "") selects every
+\* meter, also the unnamed one); a selector field that is given selects the meters with exactly that
+\* value - an unnamed meter is not the meter "m1".
+FieldMatch(sel, f) == sel = "" \/ sel = f
+MeterMatch(ms, m) == /\ FieldMatch(ms.name, m.name)
+                     /\ FieldMatch(ms.version, m.version)
+                     /\ FieldMatch(ms.schema, m.schema)
+\* The statement does not say whether a meter WITHOUT version/schema "matches" a selector WITH one (the
+\* SDK's rule: a version / schema url the meter does not set is not constrained by the selector).  The
+\* second reading differs from MeterMatch in the version and schema fields only - never in the name - and
+\* a (selector, meter) pair is left open only where the two readings give different verdicts.
+FieldMatchUnset(sel, f) == sel = "" \/ f = "" \/ sel = f
+MeterMatchUnset(ms, m) == /\ FieldMatch(ms.name, m.name)
+                          /\ FieldMatchUnset(ms.version, m.version)
+                          /\ FieldMatchUnset(ms.schema, m.schema)
+Open(ms, m) == MeterMatch(ms, m) # MeterMatchUnset(ms, m)
 
 Sh(n, d, a, f) == [name |-> n, desc |-> d, agg |-> a, filter |-> f]
 AllShapes == {Sh(n, d, a, f) : n \in {"", "v"}, d \in {"", "d"}, a \in Aggs, f \in Filters}
@@ -260,6 +285,16 @@ OnlyViewShapes ==
            /\ s.keys = (CASE views[k].filter = "none" -> {TrueKey(a) : a \in i.attrs}
                           [] views[k].filter = "k1" -> {TrueKey(a) : a \in i.attrs} \cap {"k1"}
                           [] views[k].filter = "empty" -> {})
+\* "meter identity": a selector that GIVES a name / version / schema url selects no meter that lacks it or
+\* has another one - a meter without a name (version, schema url) is selected only by selectors that
+\* leave the name (version, schema url) unconstrained
+MeterIdentityExact ==
+  \A j \in 1..Len(insts) : LET i == insts[j] IN
+    \A k \in MatchSet(i) :
+      /\ views[k].msel.name # ""    => i.meter.name = views[k].msel.name
+      /\ views[k].msel.version # "" => i.meter.version = views[k].msel.version
+      /\ views[k].msel.schema # ""  => i.meter.schema = views[k].msel.schema
+      /\ views[k].unit # ""         => i.unit = views[k].unit
 DefaultWhenNoMatch ==
   \A j \in 1..Len(insts) : LET i == insts[j] IN
     MatchSet(i) = {} => /\ Len(S(i)) = 1
@@ -281,7 +316,10 @@ EmitAll == phase = "done" => PrintT(<<"BEH", ToJson(hist)>>)
 \* demands that every tag occurs among the replayed cases
 TagNames == {"TwoMatch", "FirstOnly", "SecondOnly", "NoneOfTwo", "Drop", "ObsFilter", "KeyView", "KeyNul",
              "EmptyFilter", "VersionMiss", "SchemaMiss", "MeterNameMiss", "TypeMiss", "UnitMiss", "PrefixHit",
-             "SuffixHit", "ExactMiss", "Rename", "Default"}
+             "SuffixHit", "ExactMiss", "Rename", "Default",
+             \* empty identity fields on the METER side (and an instrument without unit)
+             "UnnamedMeterMiss", "UnnamedMeterHit", "BareMeterMiss", "BareMeterHit", "NoVersionMeterHit",
+             "NoSchemaMeterHit", "NoVersionMeterNameMiss", "NoUnitInstMiss", "NoUnitInstHit"}
 Relax(v, f) == CASE f = "version" -> [v EXCEPT !.msel.version = ""]
                  [] f = "schema"  -> [v EXCEPT !.msel.schema = ""]
                  [] f = "mname"   -> [v EXCEPT !.msel.name = ""]
@@ -309,6 +347,23 @@ TagCond(w, i) ==
     [] w = "TypeMiss"      -> \E k \in 1..Len(views) : views[k].type # i.type /\ Matches([views[k] EXCEPT !.type = i.type], i)
     [] w = "PrefixHit"     -> \E k \in ms : views[k].pat.k = "prefix"
     [] w = "SuffixHit"     -> \E k \in ms : views[k].pat.k = "suffix"
+    \* a view that names a meter, and would apply but for the name, against a meter WITHOUT name
+    [] w = "UnnamedMeterMiss" -> i.meter.name = "" /\ \E k \in 1..Len(views) :
+                                   views[k].msel.name # "" /\ Matches(Relax(views[k], "mname"), i)
+    [] w = "UnnamedMeterHit"  -> i.meter.name = "" /\ ms # {}
+    \* GetMeter(""): no name, no version, no schema url - against a selector that gives all three
+    [] w = "BareMeterMiss"    -> i.meter.name = "" /\ i.meter.version = "" /\ i.meter.schema = "" /\ \E k \in 1..Len(views) :
+                                   /\ views[k].msel.name # "" /\ views[k].msel.version # "" /\ views[k].msel.schema # ""
+                                   /\ Matches([views[k] EXCEPT !.msel = MS("", "", "")], i)
+    [] w = "BareMeterHit"     -> i.meter.name = "" /\ i.meter.version = "" /\ i.meter.schema = "" /\ ms # {}
+    [] w = "NoVersionMeterHit" -> i.meter.name # "" /\ i.meter.version = "" /\ \E k \in ms : views[k].msel.name # ""
+    [] w = "NoSchemaMeterHit"  -> i.meter.name # "" /\ i.meter.schema = "" /\ \E k \in ms : views[k].msel.name # ""
+    \* a meter without version against a selector with one: decided (no match) by the differing name
+    [] w = "NoVersionMeterNameMiss" -> i.meter.version = "" /\ \E k \in 1..Len(views) :
+                                   /\ views[k].msel.version # "" /\ views[k].msel.name \notin {"", i.meter.name}
+                                   /\ Matches([views[k] EXCEPT !.msel = MS("", "", "")], i)
+    [] w = "NoUnitInstMiss"   -> i.unit = "" /\ OnlyMiss(i, "unit")
+    [] w = "NoUnitInstHit"    -> i.unit = "" /\ ms # {}
     [] w = "Rename"        -> \E k \in ms : views[k].name # "" /\ views[k].desc # "" /\ views[k].agg \notin {"default", "drop"}
 CaseTags(i) == {w \in TagNames : TagCond(w, i)}
 \* regular-expression selectors: <<"hit", label>> the view applies, <<"miss", label>> it does not and
@@ -343,6 +398,7 @@ MSels4     == {MS("", "", ""), MS("m1", "1.0", "s1"), MS("m1", "", ""), MS("m2",
 MSels3     == {MS("", "", ""), MS("m1", "1.0", "s1"), MS("m2", "", "")}
 MSels2     == {MS("", "", ""), MS("m1", "1.0", "s1")}
 MetersAB   == {MeterA, MeterB}
+MetersABU  == {MeterA, MeterB, MeterU}
 MSelAny    == {MS("", "", "")}
 ShapesAll  == AllShapes
 Shapes2    == {Sh("v", "d", "default", "none"), Sh("", "", "last", "k1")}
@@ -355,8 +411,11 @@ IName1     == {<<"x", "a">>}
 IUnitsAll  == AllUnits
 IUnits2    == {"ms", "By"}
 IUnit1     == {"ms"}
-MetersAll  == AllMeters
+MetersAll  == AllMeters                                  \* 27: {"", m1, m2} x {"", 1.0, 2.0} x {"", s1, s2}
+Meters3    == {MeterA, MeterB, MeterC}
+Meters6    == {MeterA, MeterB, MeterC, MeterU, MeterN, MeterV}
 Meters2    == {MeterA, MeterC}
+Meters2U   == {MeterA, MeterC, MeterN}
 Meter1     == {MeterA}
 AttrsAll   == AllAttrSets
 Attrs1     == {{"k1", "k2"}}
